@@ -149,6 +149,45 @@ def replay_h_sort_part_names(pi, d0, d1, d2):
     return replay_h_sort_part_names_shared_ids(ids[0], ids[1], ids[2], d0, d1, d2)
 
 
+def _pick(v, lo, hi):
+    for k in range(lo, hi + 1):
+        if v == k:
+            return k
+    raise ValueError(v)
+
+
+def h_part_ids(i0: int, i1: int, i2: int, i3: int, d0: int, d1: int, d2: int, d3: int, n: int) -> bool:
+    """
+    pre: 2 <= n <= 3 and all(0 <= x <= 2 for x in (i0, i1, i2)) and all(0 <= x <= 1 for x in (d0, d1, d2))
+    pre: i3 == 0 and d3 == 0
+    post: __return__
+    """
+    # documented: {part number: (index of the FIRST row group carrying that number, its path)} - numbers repeat when a
+    # file holds several row groups and when partition directories number their files independently
+    n = _pick(n, 2, 3)
+    ids = [_pick(x, 0, 2) for x in (i0, i1, i2)][:n]
+    dirs = [_pick(x, 0, 1) for x in (d0, d1, d2)][:n]
+    paths = ["%spart.%d.parquet" % (DIRS[dirs[k]], ids[k] * 5) for k in range(n)]
+    got = api.part_ids([_rg(1 + k, paths[k]) for k in range(n)])
+    want = {}
+    for k in range(n):
+        want.setdefault(ids[k] * 5, (k, paths[k]))
+    return got == want
+
+
+def replay_h_part_ids(i0, i1, i2, i3, d0, d1, d2, d3, n):
+    ids, dirs = [i0, i1, i2, i3][:n], [d0, d1, d2, d3][:n]
+    paths = ["%spart.%d.parquet" % (DIRS[dirs[k]], ids[k] * 5) for k in range(n)]
+    got = api.part_ids([_rg(1 + k, paths[k]) for k in range(n)])
+    want = {}
+    for k in range(n):
+        want.setdefault(ids[k] * 5, (k, paths[k]))
+    if got != want:
+        return True, "part_ids of row groups stored in %r gives %r; the first row group of each number is %r" % (
+            paths, got, want)
+    return False, "agrees"
+
+
 def h_sort_part_names_shared_ids(i0: int, i1: int, i2: int, d0: int, d1: int, d2: int) -> bool:
     """
     pre: 0 <= i0 <= 2 and 0 <= i1 <= 2 and 0 <= i2 <= 2 and 1 <= d0 <= 2 and 1 <= d1 <= 2 and 1 <= d2 <= 2
